@@ -28,8 +28,9 @@ MANIFEST = {
                       "src/Future.cpp, Signal.cpp, Thread.cpp, Mutex.cpp run over a simulated POSIX layer in which every atomic operation and pthread call is a "
                       "scheduling point; each trace is replayed step by step on the compiled Lean model"),
         "text": ("Theorems (Props.lean, axiom-audited on every run): the lock-free ring is FIFO / hands every ticket over at most once for every capacity and thread count "
-                 "(closed ring system and, by a proved simulation, the queue inside the full pool model); a worker never reads a raw slot; safety of the call/record/"
-                 "completion handshake over all schedules of the full model (see the theorem list in the evidence); the repaired FastSignal never loses a set and the repaired "
+                 "(closed ring system and, by a proved simulation, the queue inside the full pool model); a worker never reads a raw slot; exactly-once / argument integrity / record lifetime (no fault) / token conservation and the "
+                 "completion handshake (join after completion, result, flags, future destroyed only when unused) over all schedules of the full model; deadlock freedom of the repaired "
+                 "full model in every state with a live worker; the repaired FastSignal never loses a set and the repaired "
                  "sleep/wake protocol has no lost wake-up for any number of consumers/suppliers (abstract protocol system); negation witnesses (kernel-checked schedules) that the "
                  "ORIGINAL code deadlocks (defect D17 on the full model; D17 and the swallowed wake-up on the protocol).  Tie to the code on every run: the real thread pool "
                  "(private ThreadPool built with queue sizes 1/2/4/8 and thread limits by #including Future.cpp) is run under deviation-bounded exhaustive and random schedules; "
@@ -39,9 +40,10 @@ MANIFEST = {
         "note": ("Modelled, not verified: the hand translation of the C++ into the model (validated by the step-by-step replay, not proved); sequentially consistent atomics; the "
                  "simulated POSIX semantics (mutex, condition variable with spurious wake-ups, create/join, virtual clock) is an assumption shared by scheduler and model; scheduling "
                  "points of the implementation run are atomic operations and pthread calls only (plain volatile reads are not separately interleaved in the run, they are in the "
-                 "theorems); usize wrap-around outside.  OPEN (stated in Props.lean, not proved): `join_eventually` and `no_stuck_worker_side` on the FULL model (liveness of the "
-                 "pool incl. the spawn/retire counters); what is proved instead: the abstract-protocol theorems `fastsignal_set_not_lost`, `no_stuck_protocol` (any number of threads) "
-                 "and Signal-level progress lemmas; the scheduler verdict (no deadlock in any explored schedule) is a test.  The model mirrors the REPAIRED code "
+                 "theorems); usize wrap-around outside.  OPEN (stated in Props.lean, not proved): `join_eventually` (weak fairness) and unconditional `no_stuck`; proved of it on the FULL model: "
+                 "`no_stuck_while_a_worker_lives` (no deadlock in any reachable state with a live worker) with its worker/producer/join/shutdown sides, token conservation, "
+                 "Signal-layer progress; missing: states without a live worker (spawn arithmetic with stale counter reads) and the fairness ranking argument; the scheduler verdict, the "
+                 "exhaustive model exploration of small configurations and the random model walks (no deadlock) are tests.  The model mirrors the REPAIRED code "
                  "(fixes/future/0001-0004, fixes/sync/0001); on the unrepaired tree the check reports the defects with concrete failing schedules."),
         "design_ref": "DESIGN.md 3/C10",
     }
@@ -682,8 +684,8 @@ def check(ctx):
 
 
 OPEN_STATEMENTS = [
-    "join_eventually: under weak fairness every join of the repaired full model eventually returns (stated in Props.lean, comment block OPEN)",
-    "no_stuck: global deadlock freedom of the repaired full model (proved parts: no_stuck_worker_side, no_stuck_producer_side if present, Signal progress lemmas; missing: spawn/retire arithmetic, shutdown accounting, join side)",
+    "join_eventually: under weak fairness every join of the repaired full model eventually returns (stated in Props.lean, comment block OPEN); proved instead: deadlock freedom in every state with a live worker (no_stuck_while_a_worker_lives) and its four sides, token conservation, Signal-layer progress",
+    "no_stuck (unconditional): missing the states without a live worker = spawn arithmetic over _pushedJobs/_processedJobs/_threadCount with stale reads + FIFO order, and the equality form of the terminate-job balance",
 ]
 
 
